@@ -50,6 +50,26 @@ def _whole_uses(e, name):
     return any(isinstance(n, ast.Name) and n.id == name and id(n) not in attr_bases for n in ast.walk(e))
 
 
+def _keys_only(e, name) -> bool:
+    """every occurrence of `name` in e yields only its keys: `sorted(name)`, `tuple(name)`, `list(name)`, `set(name)`, `frozenset(name)`,
+    `len(name)`, `iter(name)`, `*name`, `name.keys()`"""
+    ok_ids = set()
+    for n in ast.walk(e):
+        if isinstance(n, ast.Call) and isinstance(n.func, ast.Name) and n.func.id in ("sorted", "tuple", "list", "set", "frozenset", "len", "iter") \
+                and len(n.args) == 1 and isinstance(n.args[0], ast.Name) and n.args[0].id == name:
+            ok_ids.add(id(n.args[0]))
+        if isinstance(n, ast.Starred) and isinstance(n.value, ast.Name) and n.value.id == name:
+            ok_ids.add(id(n.value))
+        if isinstance(n, ast.Starred) and isinstance(n.value, ast.Call) and isinstance(n.value.func, ast.Name) and n.value.func.id in ("sorted",) \
+                and len(n.value.args) == 1 and isinstance(n.value.args[0], ast.Name) and n.value.args[0].id == name:
+            ok_ids.add(id(n.value.args[0]))
+        if isinstance(n, ast.Call) and isinstance(n.func, ast.Attribute) and n.func.attr == "keys" and isinstance(n.func.value, ast.Name) \
+                and n.func.value.id == name:
+            ok_ids.add(id(n.func.value))
+    occ = [n for n in ast.walk(e) if isinstance(n, ast.Name) and n.id == name]
+    return bool(occ) and all(id(n) in ok_ids for n in occ)
+
+
 def _fn_of(d_node, node):
     owner = d_node
     for f in ast.walk(d_node):
@@ -219,6 +239,17 @@ def check(ctx, col, rule: str, modules: tuple, what_prop: str = "a cached value 
             vin, kin = vin & varying, kin & varying
             missing = sorted(vin - kin - {"self", "cls"})
             proj = sorted(n for n in (vin & kin) if any(_whole_uses(e, n) for e in vexp) and not any(_whole_uses(e, n) for e in kexp))
+            # a dict of options (the function's ** parameter) that the key mentions only through its KEYS: `sorted(kwargs)`, `tuple(kwargs)`,
+            # `*kwargs`, `kwargs.keys()` -- the option VALUES are used for the value and are not in the key
+            kwname = fn.args.kwarg.arg if fn.args.kwarg is not None else None
+            keys_only = kwname is not None and kwname in (vin & kin) and any(_whole_uses(e, kwname) for e in vexp) \
+                and all(_keys_only(e, kwname) for e in kexp if kwname in _names(e))
+            if keys_only and not missing and not proj:
+                col.bad(rule, d.qualname, d.loc(st), what_prop,
+                        f"`{norm_src(st)[:80]}`: the key `{norm_src(kexp[-1])[:60]}` mentions only the NAMES of the options in `{kwname}`, the value is computed "
+                        f"from their values: a later request with the same option names and other values gets the value kept for the first one",
+                        stmt=f"memo:{norm_src(D)}", definite=True)
+                continue
             q = d.qualname
             dsrc = norm_src(D)
             _, dexp = _leaves([D], simple, opaque, params)
